@@ -24,6 +24,7 @@ type C16Box struct {
 	Opacity   bool     `json:"opacity,omitempty"`
 	Transform bool     `json:"transform,omitempty"`
 	Overflow  bool     `json:"overflow,omitempty"`
+	Outline   bool     `json:"outline,omitempty"`
 	Kids      []C16Box `json:"kids,omitempty"`
 }
 
@@ -61,6 +62,7 @@ func c16GenBox(t *rapid.T, depth int, budget *int, many bool) C16Box {
 			b.Overflow = true
 		}
 	}
+	b.Outline = rapid.IntRange(0, 3).Draw(t, "outline") == 0
 	if depth > 0 && !many {
 		for i, n := 0, rapid.IntRange(0, 3).Draw(t, "nkids"); i < n && *budget > 0; i++ {
 			b.Kids = append(b.Kids, c16GenBox(t, depth-1, budget, false))
@@ -128,6 +130,9 @@ func c16HTML(c *C16Case) (string, []*c16Node) {
 		}
 		if b.Overflow {
 			st += "overflow:hidden;"
+		}
+		if b.Outline {
+			st += fmt.Sprintf("outline:2px solid rgb(%d,150,0);", n.id)
 		}
 		fmt.Fprintf(&sb, `<div style="%s">t%d`, st, n.id)
 		for i := range b.Kids {
@@ -270,6 +275,15 @@ func c16Paint(n *c16Node, kids []*c16Node, real bool, out *[]c16Event) {
 			c16Paint(k, nil, true, out)
 		}
 	}
+	// step 10: the outlines of the boxes of this (pseudo) context, in tree order
+	if n != nil && n.b.Outline {
+		*out = append(*out, c16Event{n.id, "outline"})
+	}
+	for _, b := range loc.blocks {
+		if b.b.Outline {
+			*out = append(*out, c16Event{b.id, "outline"})
+		}
+	}
 }
 
 // c16Observed decodes the paint events of the trace through the colours.
@@ -303,6 +317,8 @@ func c16ObservedFull(r *wr.Rendered) []c16Obs {
 			return c16Event{id, "border"}, true
 		case 200:
 			return c16Event{id, "text"}, true
+		case 150:
+			return c16Event{id, "outline"}, true
 		}
 		return c16Event{}, false
 	}
@@ -572,7 +588,8 @@ func c16Check(ci interface{}) Verdict {
 			}
 			for _, o := range obs {
 				m := byID[o.ev.box]
-				if m == nil || m == n || !inSubtree(m, n) || o.canvas != canvas || o.ev.layer == "bg" {
+				if m == nil || m == n || !inSubtree(m, n) || o.canvas != canvas || o.ev.layer == "bg" || o.ev.layer == "outline" {
+					// (outlines are drawn once the content of the context is, outside its clip: not judged)
 					continue
 				}
 				// absolutely positioned boxes whose containing block lies outside the box are not clipped by it
@@ -605,10 +622,10 @@ func init() {
 		CrashIsViolation: false,
 		QuickN:           12000,
 		ThoroughN:        400000,
-		Rule: "Stacking scenes: 2-9 boxes nested up to 3 deep, each a block, float or inline-block with its own background, border and text colour and a text; four in ten relative or absolute positioned with z-index in {auto, 0, 1, 1, 2, -1, -1, -2}, one in four with opacity, transform or overflow:hidden; negative margins and offsets make boxes overlap. One scene in eight is a wide context of 10-28 positioned siblings sharing few z-index values. " +
+		Rule: "Stacking scenes: 2-9 boxes nested up to 3 deep, each a block, float or inline-block with its own background, border, text and (one in four) outline colour and a text; four in ten relative or absolute positioned with z-index in {auto, 0, 1, 1, 2, -1, -1, -2}, one in four with opacity, transform or overflow:hidden; negative margins and offsets make boxes overlap. One scene in eight is a wide context of 10-28 positioned siblings sharing few z-index values. " +
 			"Oracle: a reference of CSS 2.1 Appendix E (stacking context tree; per context: background and border of the root box, negative z-index contexts ascending with ties in tree order, in-flow block backgrounds and borders in tree order, floats atomically, inline content (texts and inline-blocks) in tree order, positioned boxes with z-index auto/0 and z-index-0 contexts in tree order with the hoisting of positioned descendants out of pseudo contexts, positive contexts ascending with ties in tree order) gives the expected sequence of (box, layer) paints; the observed sequence is decoded from the fill colours of Paint and DrawText calls of the backend trace in chronological order (groups are drawn where they are composited); both must be equal. Then: every paint of the sub-tree of an opacity box lies on that box's group canvas, nothing foreign does, and the group is composited with that opacity; borders and texts below an overflow:hidden box are drawn with more clip regions active than the box's own border. " +
 			"Non-trivial: >= 2 boxes with explicit z-index, or a float.",
 		ImportantLabels: []string{"z-ties", "negative-z", "nested-context", "opacity", "transform", "overflow-hidden", "float", "wide-context"},
-		Assumptions:     []string{"outlines are not generated", "the trace order of group contents is taken as their paint order (a group is composited right after its content is recorded)"},
+		Assumptions:     []string{"whether overflow:hidden clips the outlines of descendants is not judged (the engine draws the outlines of a context after its clipped content)", "the trace order of group contents is taken as their paint order (a group is composited right after its content is recorded)"},
 	})
 }
